@@ -2,6 +2,7 @@ CONSTANTS
   Dev = {}
   Alphabet <- AlphaObj
   MaxLen = 5
+  Prune = FALSE
   DepthProbe = {1, 2, 256}
 INIT MInit
 NEXT MNext
